@@ -25,6 +25,11 @@ pub fn plan(tier: &str, seed: u64) -> Vec<Batch> {
         u.no_openat2 = true;
         unis.push(u);
     }
+    // callers with a private descriptor table (unshare(CLONE_FILES)): one universe each,
+    // never reused (the caller thread keeps its private table)
+    for uni in unis.iter() {
+        v.push(Batch { check: "C09".into(), phase: "private-table".into(), uni: uni.clone(), seed, lo: 0, hi: private_cases().len() as u64, fresh: false, tier: tier.into(), extra: Value::Null });
+    }
     for (ui, uni) in unis.into_iter().enumerate() {
         let nb = if ui < 2 { n } else { (n / 2).max(1) };
         for i in 0..nb {
@@ -32,6 +37,78 @@ pub fn plan(tier: &str, seed: u64) -> Vec<Batch> {
         }
     }
     v
+}
+
+/// (path, flags, decoy planted in the leader's table, C facade)
+pub fn private_cases() -> Vec<(String, i32, bool, bool)> {
+    let mut v = Vec::new();
+    for (path, flagsets) in [
+        ("dir/file", vec![libc::O_RDONLY, libc::O_RDWR, libc::O_WRONLY | libc::O_APPEND, libc::O_PATH]),
+        ("dir/sub", vec![libc::O_RDONLY, libc::O_RDONLY | libc::O_DIRECTORY, libc::O_PATH]),
+        ("dir/null", vec![libc::O_RDWR]),
+        ("dir/fifo", vec![libc::O_RDONLY | libc::O_NONBLOCK, libc::O_PATH]),
+    ] {
+        for fl in flagsets {
+            for plant in [true, false] {
+                for c in [false, true] {
+                    v.push((path.to_string(), fl, plant, c));
+                }
+            }
+        }
+    }
+    v
+}
+
+fn run_private(u: &mut Universe, b: &Batch, idx: u64, st: &mut Stats) -> bool {
+    let (path, flags, plant, c) = match b.extra["case"].as_object().and(Case::from_json(&b.extra["case"])) {
+        Some(case) => match &case.jobs[0][0].op {
+            Op::ReopenPrivateTable { path, flags, plant } => (path.clone(), *flags, *plant, case.jobs[0][0].facade == Facade::C),
+            _ => return false,
+        },
+        None => private_cases()[idx as usize].clone(),
+    };
+    let mut case = Case::new("C09", "private-table", b.uni.clone());
+    case.world = Some(world());
+    let mut o = OpSpec::new(Op::ReopenPrivateTable { path: path.clone(), flags, plant });
+    if c {
+        o = o.c();
+    }
+    case.jobs = vec![vec![o]];
+    case.extra = json!({"flags": flags, "target": path});
+    let mut h = crate::sup::NoHooks;
+    let out = run_case(u, &case, &mut h, false);
+    u.poisoned = true; // the caller keeps its private table: the batch loop below continues anyway, nothing else runs here
+    if let Some(e) = &out.harness_error {
+        st.harness_errors.push(format!("private-table {idx}: {e}"));
+        return false;
+    }
+    st.evaluations += 1;
+    st.merge_runout(&out);
+    st.nontrivial.insert(case.hash());
+    let rec = match out.records.first() {
+        Some(r) => r,
+        None => return false,
+    };
+    st.count(&format!("private.outcome.{}", rec.outcome.class()), 1);
+    let found = match &rec.outcome {
+        Outcome::Harness(0) => None,
+        Outcome::Harness(1) => Some(("different-inode:private-descriptor-table", format!("a caller thread with a private descriptor table reopened its descriptor for {path:?} with {flags:#o} and got a different inode (decoy at the same number in the thread-group leader's table: {plant})"))),
+        Outcome::Harness(-2) => {
+            st.harness_errors.push(format!("private-table {idx}: set-up failed"));
+            return false;
+        }
+        Outcome::Err { errno, kind, desc } if !is_interference(&rec.outcome) => Some((
+            "fails:private-descriptor-table",
+            format!("a caller thread with a private descriptor table cannot reopen its descriptor for {path:?} with {flags:#o}: {} ({kind}) {desc} (decoy planted: {plant})", sys::errname(*errno)),
+        )),
+        Outcome::Panic(m) => Some(("panic", m.clone())),
+        _ => None,
+    };
+    if let Some((clause, detail)) = found {
+        let v = mk_violation(&case, &out, "C09", clause, "reopen", detail);
+        st.violation(&v);
+    }
+    true
 }
 
 pub fn world() -> WorldSpec {
@@ -319,6 +396,13 @@ pub fn run(u: &mut Universe, b: &Batch, st: &mut Stats) {
     }
     for idx in b.lo..b.hi {
         coord::progress(idx);
+        let replay_private = b.phase == "replay" && b.extra["case"]["phase"].as_str() == Some("private-table");
+        if b.phase == "private-table" || replay_private {
+            if !run_private(u, b, idx, st) {
+                return;
+            }
+            continue;
+        }
         let case = if b.phase == "replay" {
             match Case::from_json(&b.extra["case"]) {
                 Some(c) => c,
@@ -390,7 +474,7 @@ pub fn finalise(tier: &str, seed: u64, res: coord::CheckResult) -> i32 {
         tier,
         seed,
         "exploration",
-        "one evaluation = one history: resolve a handle (file, directory, fifo, symlink handle, character device) -> attacker operations on the handle's path (rename, replace by a same-named file/dir/symlink, unlink, rename an ancestor; 0-3 of them) -> renumber the handle's descriptor (0, 1, 2, 3, 5, 63, 150, 199 or unchanged) -> optionally mount tmpfs / a foreign directory over /proc, /proc/self, /proc/self/fd, /proc/thread-self -> reopen with a flag set from the power set of {access modes, O_APPEND, O_DIRECTORY, O_NOFOLLOW, O_CLOEXEC, O_TRUNC, O_NOATIME, O_CREAT, O_EXCL, O_TMPFILE, O_NOCTTY}; compared with the baseline (same handle type and flags, nothing in between); universes: K and E with private procfs, and with fsopen refused / the whole new mount API refused (non-private handles); non-trivial = a history with at least one attacker / renumbering / mount step; distinct = hash of the case",
+        "one evaluation = one history: resolve a handle (file, directory, fifo, symlink handle, character device) -> attacker operations on the handle's path (rename, replace by a same-named file/dir/symlink, unlink, rename an ancestor; 0-3 of them) -> renumber the handle's descriptor (0, 1, 2, 3, 5, 63, 150, 199 or unchanged) -> optionally mount tmpfs / a foreign directory over /proc, /proc/self, /proc/self/fd, /proc/thread-self -> reopen with a flag set from the power set of {access modes, O_APPEND, O_DIRECTORY, O_NOFOLLOW, O_CLOEXEC, O_TRUNC, O_NOATIME, O_CREAT, O_EXCL, O_TMPFILE, O_NOCTTY}; compared with the baseline (same handle type and flags, nothing in between); universes: K and E with private procfs, and with fsopen refused / the whole new mount API refused (non-private handles); private-table phase: the whole scenario runs in a caller thread with a private descriptor table (unshare(CLONE_FILES)) that opens the target itself, has the supervisor plant a decoy at the same descriptor number in the thread-group leader's table (or leave that number empty there), reopens through libpathrs (4 targets x flag sets x Rust/C, 60 cases per universe kind) and compares inodes itself: the answer must come from the calling thread's table; non-trivial = a history with at least one attacker / renumbering / mount step; distinct = hash of the case",
         res,
         Map::new(),
         vec![
@@ -398,7 +482,7 @@ pub fn finalise(tier: &str, seed: u64, res: coord::CheckResult) -> i32 {
             "'new open file description' is checked through differing F_GETFL (kcmp is not available in this kernel)".into(),
         ],
         false,
-        &|b, run| Some(gen_case(b.seed, run, &b.uni)),
+        &|b, run| if b.phase == "private-table" { None } else { Some(gen_case(b.seed, run, &b.uni)) },
     )
     .exit_code
 }
